@@ -97,6 +97,9 @@ func init() {
 			withAnchors(c, func(a *serverAnchors) {
 				ruleLookup(c, a.cacheA, set("state-determined", "load-on-first-lookup", "load-only-when-unknown", "expiry-applied", "invariant-expiry", "hit-data"))
 				ruleStoreLoadAtomic(c, a.cacheA)
+				ruleEncodedFresh(c)
+				ruleLayout(c)
+				ruleTruncation(c)
 			})
 		})
 	register("C10",
@@ -177,5 +180,36 @@ func init() {
 			ruleLZ4Bound(c)
 			ruleDecoderErrors(c)
 			ruleDecoderDispatch(c)
+		})
+	register("C09",
+		"Decides writer/reader layout agreement for both record types (element kinds, widths, order and the field each element belongs to, every variable-length element preceded by its own length), that every read is bounded (fixed-width reads fail on short input, variable reads are checked against 0 and the remaining length), that no allocation in a decoder is sized by record data, that a record cut anywhere fails to decode (the tail is a checked read), that encoded records are freshly allocated, and that integer writers and readers agree on width and byte order. Exact value round-trip of contents (e.g. JSON re-encoding of non-UTF-8 header values) is value semantics of libraries and not decided.",
+		nil, func(c *Ctx) {
+			ruleLayout(c)
+			ruleBoundedReads(c)
+			ruleTruncation(c)
+			ruleEncodedFresh(c)
+			ruleWriterWidths(c)
+		})
+	register("C14",
+		"Decides that Match is exactly (no hosts or host listed) and (no prefixes or some prefix of the URI) and depends on nothing else; that the four specificity classes get strictly increasing, non-zero priorities in the order prefix+host < prefix < host < none; that the list is sorted ascending by that priority (comparator over the very slice being sorted) before it is published under the write lock; that only an element of the sorted list whose name is one of the server's own names and which matches is returned, with the sorted list as the outer loop; that the proxy resolves with the request's Host and request URI and fails with a 5xx before any upstream contact when no location or upstream is found.",
+		nil, func(c *Ctx) {
+			withAnchors(c, func(a *serverAnchors) {
+				ruleMatch(c)
+				rulePriority(c)
+				ruleSortedPublish(c)
+				ruleNamedOnly(c)
+				ruleErrorCodes(c)
+				ruleProxyMiddleware(c, a, set("proxy-resolution", "forward-once"))
+			})
+		})
+	register("C15",
+		"Decides which request state the proxy middleware changes before the upstream call and that each change is undone on every exit after it: on a cold (fetching) request If-None-Match, If-Modified-Since, Range and If-Range are removed or known absent at the upstream call, on every other request they are untouched; every header the middleware removed or overrode (incl. Accept-Encoding) is set back to the value read before; the upstream's Accept-Encoding override is exactly the configured value; the location's response headers are added to the upstream's header before the response (and its header clone) is built; a lifetime is recorded only for fetchers; the original next handler is restored and run once. What the upstream receives byte for byte is not decided.",
+		nil, func(c *Ctx) {
+			withAnchors(c, func(a *serverAnchors) {
+				ruleProxyMiddleware(c, a, set("withheld-on-fetch", "restore", "accept-encoding-override", "location-edits-order", "lifetime-plumbing", "next-restored", "response-built", "forward-once", "upstream-error-propagates"))
+				ruleCacheMiddleware(c, a, set("completion-only-by-fetcher", "store-gate"))
+				ruleRequestWrites(c)
+				ruleChainOrder(c, a)
+			})
 		})
 }
